@@ -22,8 +22,10 @@ var c16Alphabet = []string{
 	"deploy ra h=a.example.com p=/ o=plain",
 	"deploy ra h=a.example.com p=/ o=tls",
 	"deploy ra h=a.example.com p=/ o=tlsnr",
+	"deploy ra h=c.example.com p=/ o=tls", // the root service of a.example.com moves away: its host is left without a root service
 	"deploy rb h=b.example.com p=/ o=tls",
 	"deploy rb h=b.example.com p=/ o=plain",
+	"deploy rb h=a.example.com p=/ o=plain", // ... and moves onto another service's host
 	"deploy rw h=*.example.com p=/ o=tls",
 	"deploy rw h=*.example.com p=/ o=plain",
 	"deploy sa h=a.example.com p=/api o=plain",
